@@ -956,7 +956,8 @@ byte = st.integers(0, 255)
 
 
 def big_len(huge):
-    return st.one_of(st.sampled_from([4097, 4098, 8192, 8193] if not huge else [4097, 8193, 65535]),
+    # (huge: the declared length is a 16-bit field; 0x7FFF / 0x8000 is where a signed reading of it changes sign)
+    return st.one_of(st.sampled_from([4097, 4098, 8192, 8193] if not huge else [4097, 8193, 32767, 32768, 32769, 40000, 65535]),
                      st.integers(4097, 5200 if not huge else 20000))
 
 
@@ -1219,9 +1220,8 @@ def run(tier, seed):
         add('framer', 12 if not thorough else 100, ['kway', 'mixed', 'one'])
         add('client', 60 if not thorough else 500, ['kway', 'reply', None])
         add('client', 6 if not thorough else 30, ['kway', 'reply', 'one'])
-    if thorough:
-        for _ in range(4):
-            add('framer', 6, ['huge'])
+    for _ in range(4 if thorough else 2):
+        add('framer', 6 if thorough else 4, ['huge'])
     stats = common.parallel(shard, jobs)
     if stats.extra.get('tcp_inconclusive_shards') and not stats.fails:
         raise HarnessError('%d TCP shard(s) inconclusive: %s' % (stats.extra['tcp_inconclusive_shards'],
